@@ -139,6 +139,9 @@ def check_session(line, c):
             for idhex, v in (diag.get(key) or {}).items():
                 i = byhex.get(idhex.lower())
                 c.eq("diag.%s[%s]" % (key, idhex), S.ser_scalar(src[i]) if i is not None else b"", v)
+        for idhex, v in (diag.get("binding_factor_preimages") or {}).items():
+            i = byhex.get(idhex.lower())
+            c.eq("diag.binding_factor_preimages[%s]" % idhex, res["binding_factor_inputs"][i] if i is not None else b"", v)
         if diag.get("group_commitment") is not None:
             Rb = S.ser_elem(res["group_commitment"])
             got = diag["group_commitment"]
